@@ -21,6 +21,10 @@ ALL_CLAIMED = ["C03","C04","C07","C10","C12","C16","C17","C18","C20"]
 TRUST = "Trusted: the simulator stubs (fidelity rules in DESIGN.md §2.3), the seam rewriter (its report of unseamed sites is in the evidence), the harness's own reference codec/models. Sampling, not proof."
 
 CLAIMED = {
+ "C20": dict(engine="order-world", cat="exploration",
+   text="Seeded (base program, edit script) pairs committed as HEAD~ and HEAD of a scratch git repository; cmd/thriftbreak's run() executed in readable and JSON mode under seeded map-iteration orders of the comparison and the compiler; oracles: the reported set equals an executable reference model of the five documented breaking rules (fields matched by id, declared type names compared as written), each diagnostic attributed to the changed file, error exactly when something is reported, nothing for identical or compatible versions, same set across schedules and output modes.",
+   ref="DESIGN.md §4 C20", note=TRUST+" The reference model progen.Breaking is trusted; renames are not generated; HEAD always compiles; a reported line is matched by file and leading quoted names, not wording.",
+   tech="deterministic simulation of map-iteration order over the real linter on real two-commit git histories; reference model as oracle"),
  "C10": dict(engine="order-world", cat="exploration",
    text="Seeded (program, option set) pairs compiled and generated repeatedly into fresh directories, each time under another seeded map-iteration order at every range-over-map site of the compiler and the generator (plus reflect MapKeys), with an in-process capturing service generator; oracles: same success/failure, same set of output paths, same sha256 of every file, same plugin request up to the numbering of module and service ids.",
    ref="DESIGN.md §4 C10", note=TRUST+" Map iteration inside third-party code is not seamed (text/template sorts keys). Cross-process determinism is argued through the seam: map order is the generator's only per-process nondeterminism (no clock, randomness or goroutines in compile/ and gen/; see the seam report in the evidence).",
